@@ -10,7 +10,7 @@ import copy, math
 import torch
 from common import main
 import factory
-from c11_impl import copy_params, rand_spikes, maxdiff
+from c11_impl import copy_params, rand_spikes, maxdiff, scale_weights
 from inferno import neural, observe
 from inferno.core.infrastructure import RecordTensor, ShapedTensor, Module
 
@@ -303,6 +303,146 @@ def snap_red(X, spec):
             float(X.decay) if hasattr(X, "decay") else None, int(bool(X._initial)), snap_rt_shape(X.data_)]
 
 
+# ---------------------------------------------------------------------------------------------------------------
+# ownership chain: Serial layer -> connection -> synapse, and the layer's neuron.  Every attribute is assigned through
+# every route that reaches it; after EACH assignment every getter of every object of the chain is compared with a
+# freshly constructed chain of the configuration the user has asked for so far.
+def chain_build(spec, cfg):
+    """fresh chain for the tracked configuration cfg = {"c": {cls, dt, delay, batch, inplace}, "n": {dt, batch}}"""
+    cs = copy.deepcopy(spec["conn"])
+    cs["dt"], cs["batch"] = cfg["c"]["dt"], cfg["c"]["batch"]
+    cs["synapse"] = {"cls": cfg["c"]["cls"], "kw": {"inplace": cfg["c"]["inplace"]}}
+    cs["delay"] = None if spec["conn"].get("delay") is None else cfg["c"]["delay"]
+    conn = factory.build_connection(cs)
+    neu = factory.build_neuron({"cls": spec["neuron"], "shape": list(conn.outshape), "dt": cfg["n"]["dt"], "batch": cfg["n"]["batch"]})
+    return neural.Serial(conn, neu)
+
+
+def _shape(t):
+    return None if t is None else list(t.shape)
+
+
+def chain_getters(L):
+    c, n = L.connection, L.neuron
+    s = c.synapse
+    out = {"layer.synapse is connection.synapse": L.synapse is s,
+           "layer.cell.connection is layer.connection": L.cell.connection is c,
+           "layer.cell.neuron is layer.neuron": L.cell.neuron is n,
+           "connection.synapse_ is connection.synapse": c.synapse_ is s,
+           "connection children": sorted(k for k, _ in c.named_children())}
+    for g in ("dt", "batchsz", "inshape", "outshape", "batched_inshape", "batched_outshape", "biased", "delayedby"):
+        v = getattr(c, g)
+        out["connection." + g] = list(v) if isinstance(v, (tuple, torch.Size)) else v
+    out["connection.selector.shape"] = _shape(c.selector)
+    out["connection.syncurrent.shape"] = _shape(c.syncurrent)
+    out["connection.synspike.shape"] = _shape(c.synspike)
+    out["synapse.class"] = type(s).__name__
+    for g in ("dt", "delay", "batchsz", "inplace", "shape", "batchedshape"):
+        v = getattr(s, g)
+        out["synapse." + g] = list(v) if isinstance(v, (tuple, torch.Size)) else v
+    out["synapse.current.shape"] = _shape(s.current)
+    out["synapse.spike.shape"] = _shape(s.spike)
+    out["synapse.histories"] = {k: snap_rt_shape(getattr(s, k))[:1] + snap_rt_shape(getattr(s, k))[2:] for k in rt_names(s)}
+    for g in ("dt", "batchsz", "shape", "batchedshape"):
+        v = getattr(n, g)
+        out["neuron." + g] = list(v) if isinstance(v, (tuple, torch.Size)) else v
+    out["neuron.voltage.shape"] = _shape(n.voltage)
+    out["neuron.refrac.shape"] = _shape(n.refrac)
+    out["neuron.tensors"] = {k: [cons_of(n, k), _shape(getattr(n, k).value)] for k in st_names(n)}
+    return out
+
+
+def chain_target(L, route):
+    return {"layer.connection": lambda: L.connection, "layer.cell.connection": lambda: L.cell.connection,
+            "layer.connections[name]": lambda: L.get_connection("serial"),
+            "layer.synapse": lambda: L.synapse, "layer.connection.synapse": lambda: L.connection.synapse,
+            "layer.cell.connection.synapse": lambda: L.cell.connection.synapse,
+            "layer.neuron": lambda: L.neuron, "layer.cell.neuron": lambda: L.cell.neuron,
+            "layer.neurons[name]": lambda: L.get_neuron("serial")}[route]()
+
+
+def run_chain_case(case):
+    spec, seed = case["spec"], case["seed"]
+    torch.manual_seed(seed)
+    cfg = {"c": {"cls": spec["conn"]["synapse"]["cls"], "dt": spec["conn"]["dt"],
+                 "delay": 0.0 if spec["conn"].get("delay") is None else spec["conn"]["delay"],
+                 "batch": spec["conn"]["batch"], "inplace": False},
+           "n": {"dt": spec["conn"]["dt"], "batch": spec["conn"]["batch"]}}
+    X = chain_build(spec, cfg)
+    KEEP.append(X)
+    if X.connection.delayedby is not None:
+        with torch.no_grad():
+            X.connection.delay = ((torch.rand(X.connection.delay.shape) * cfg["c"]["delay"]) * 4).round() / 4
+    g0 = torch.Generator().manual_seed(seed + 1)
+    for _ in range(case.get("warm", 0)):
+        X(rand_spikes(g0, (X.connection.batchsz, *X.connection.inshape), 0.4),
+          neuron_kwargs=({"adapt": False} if spec["neuron"] in factory.ADAPTIVE else None))
+    for k, (route, attr, v) in enumerate(case["ops"]):
+        obj = chain_target(X, route)
+        side = "c" if "connection" in route or "synapse" in route else "n"
+        if attr == "synapse":
+            ok = v["dt"] > 0 and v["delay"] >= 0 and v["batch"] > 0
+            try:
+                new = mk_synapse(v["cls"], list(obj.synapse.shape), v["dt"], v["delay"], v["batch"], v["inplace"])
+                obj.synapse = new
+                raised = None
+            except (ValueError, RuntimeError) as e:
+                raised = e
+            if ok:
+                cfg["c"] = {"cls": v["cls"], "dt": v["dt"], "delay": v["delay"], "batch": v["batch"], "inplace": v["inplace"]}
+        else:
+            ok = (v > 0) if attr in ("dt", "batchsz") else ((v >= 0) if attr == "delay" else True)
+            try:
+                setattr(obj, attr, v)
+                raised = None
+            except (ValueError, RuntimeError) as e:
+                raised = e
+            if ok:
+                cfg[side][{"batchsz": "batch"}.get(attr, attr)] = v
+        if ok and raised is not None:
+            return {"ok": False, "what": "setter_raised", "attr": attr,
+                    "detail": f"op {k}: {route}.{attr} = {v!r}: {type(raised).__name__}: {str(raised)[:200]}"}
+        if not ok and raised is None:
+            return {"ok": False, "what": "invalid_accepted", "attr": attr, "detail": f"op {k}: {route}.{attr} = {v!r} was accepted"}
+        torch.manual_seed(seed)
+        Y = chain_build(spec, cfg)
+        gx, gy = chain_getters(X), chain_getters(Y)
+        for key in gy:
+            if gx.get(key) != gy[key]:
+                return {"ok": False, "what": "chain_getter", "attr": attr,
+                        "detail": f"after op {k} ({route}.{attr} = {v!r}; ops so far {case['ops'][:k + 1]}): {key} is {gx.get(key)!r}, "
+                                  f"a freshly constructed chain of the same configuration {cfg} reports {gy[key]!r}"}
+    # cleared, the chain computes like the fresh one (only possible when connection and neuron agree on the batch size)
+    torch.manual_seed(seed)
+    Y = chain_build(spec, cfg)
+    KEEP.append(Y)
+    X.clear()
+    scale_weights(X.connection, 24.0)
+    copy_params(X, Y)
+    if cfg["c"]["batch"] != cfg["n"]["batch"]:
+        return {"ok": True, "events": 0, "stepped": False}
+    g1, g2 = torch.Generator().manual_seed(seed + 2), torch.Generator().manual_seed(seed + 2)
+    nk = {"adapt": False} if spec["neuron"] in factory.ADAPTIVE else None
+    ev = 0
+    for t in range(case["T"]):
+        xa = rand_spikes(g1, (cfg["c"]["batch"], *X.connection.inshape), 0.4)
+        xb = rand_spikes(g2, (cfg["c"]["batch"], *Y.connection.inshape), 0.4)
+        try:
+            oa, ia = X(xa, neuron_kwargs=nk, capture_intermediate=True)
+        except Exception as e:  # noqa
+            return {"ok": False, "what": "step_raised", "attr": None,
+                    "detail": f"step {t} on the setter-built chain raised {type(e).__name__}: {str(e)[:200]} (ops {case['ops']})"}
+        ob, ib = Y(xb, neuron_kwargs=nk, capture_intermediate=True)
+        for nm_, u, w in (("connection output", ia, ib), ("spikes", oa, ob), ("voltage", X.neuron.voltage, Y.neuron.voltage),
+                          ("syncurrent", X.connection.syncurrent, Y.connection.syncurrent)):
+            if u.shape != w.shape or maxdiff(u, w) > 0:
+                return {"ok": False, "what": "chain_output", "attr": None,
+                        "detail": f"step {t}: {nm_} of the setter-built chain {list(u.shape)} differs from the fresh chain {list(w.shape)} "
+                                  f"(ops {case['ops']})"}
+        ev += int(oa.sum() > 0)
+    return {"ok": True, "events": ev, "stepped": True}
+
+
 def run_model_case(case):
     """setter sequences whose effect is compared with the Coq models (C14/Config.v and the extended models)"""
     fam = case["family"]
@@ -404,7 +544,9 @@ def run_model_case(case):
             if op[0] == "step":
                 X(rand_spikes(torch.Generator().manual_seed(1), (X.batchsz, *X.inshape), 0.4))
                 continue
-            if op[0] == "synapse":
+            if op[0] == "syn":
+                try_set(X.synapse, op[1], op[2])          # the other route: directly on the owned synapse
+            elif op[0] == "synapse":
                 try:
                     new = mk_synapse(op[1], shp, op[2], op[3], op[4], op[5])
                     X.synapse = new
@@ -448,7 +590,7 @@ def handler(payload):
     out = []
     for c in payload["cases"]:
         try:
-            out.append(run_model_case(c) if c["family"].endswith("_model") else run_case(c))
+            out.append(run_model_case(c) if c["family"].endswith("_model") else (run_chain_case(c) if c["family"] == "chain" else run_case(c)))
         except Exception as e:  # noqa
             import traceback
             out.append({"ok": False, "what": "exception", "detail": f"{type(e).__name__}: {str(e)[:300]}",
